@@ -8,15 +8,15 @@ H = 'c15_string.c'
 V_OPS = ['default', 'cstr', 'ptrlen', 'copy', 'assign', 'index', 'eq', 'eq_same', 'eq_cstr', 'find_first', 'find_first0', 'find_first_of', 'find_first_of0',
          'find_last', 'sub_string', 'starts_with', 'ends_with', 'to_unsigned', 'to_int', 'hash']
 S_OPS = ['ctor_default', 'ctor_alloc', 'ctor_cstr', 'ctor_alloc_cstr', 'ctor_ptrlen', 'ctor_alloc_ptrlen', 'ctor_view', 'ctor_alloc_view', 'ctor_fill', 'ctor_copy', 'ctor_move',
-         'assign_cstr', 'append_cstr', 'index', 'iterate', 'compare', 'eq', 'compare_cstr', 'eq_cstr', 'ne_cstr', 'eq_view', 'to_view', 'starts_with', 'ends_with', 'hash']
+         'assign_cstr', 'append_cstr', 'index', 'iterate', 'compare', 'eq', 'compare_cstr', 'eq_cstr', 'ne_cstr', 'eq_view', 'to_view', 'starts_with', 'ends_with', 'hash', 'plus_view', 'plus_char', 'plus_self']
 M_OPS = ['assign_copy', 'assign_self', 'assign_move', 'assign_empty', 'resize_0', 'resize_less', 'resize_same', 'resize_more',
          'append_view', 'append_self', 'append_self_tail', 'append_char', 'push_back', 'plus_view', 'plus_char', 'plus_self_to_other', 'swap']
 # operations that do not look at the second source (one query per LA is enough)
 V_UNARY = {'default', 'cstr', 'ptrlen', 'index', 'eq_same', 'find_first', 'find_first0', 'find_last', 'sub_string', 'to_unsigned', 'to_int'}
 S_UNARY = {'ctor_default', 'ctor_alloc', 'ctor_cstr', 'ctor_alloc_cstr', 'ctor_ptrlen', 'ctor_alloc_ptrlen', 'ctor_view', 'ctor_alloc_view', 'ctor_fill', 'ctor_copy', 'ctor_move',
-           'index', 'iterate', 'to_view'}
+           'index', 'iterate', 'to_view', 'plus_char', 'plus_self'}
 # operations whose result depends on the allocator block registry (decide the C16 block clauses for strings)
-C16_S = {'assign_cstr', 'append_cstr', 'ctor_default', 'ctor_alloc', 'ctor_cstr', 'ctor_alloc_cstr', 'ctor_ptrlen', 'ctor_alloc_ptrlen', 'ctor_view', 'ctor_alloc_view', 'ctor_fill', 'ctor_copy', 'ctor_move'}
+C16_S = {'plus_view', 'plus_char', 'plus_self', 'assign_cstr', 'append_cstr', 'ctor_default', 'ctor_alloc', 'ctor_cstr', 'ctor_alloc_cstr', 'ctor_ptrlen', 'ctor_alloc_ptrlen', 'ctor_view', 'ctor_alloc_view', 'ctor_fill', 'ctor_copy', 'ctor_move'}
 
 def _tuples(lmax):
     """(la, lb, nulla, nullb): length 0 comes in two representations, (nullptr,0) and an allocated/zero-length buffer"""
@@ -134,32 +134,32 @@ def _hist(tier, lmax):
         k3 = [((1, 2, 0, 0), core)]
     else:
         k2 = _tuples(4)
-        k3 = [(t, full) for t in [(0, 0, 1, 1), (0, 0, 0, 1), (0, 1, 1, 0), (1, 0, 0, 1), (1, 1, 0, 0), (1, 2, 0, 0), (2, 1, 0, 0), (2, 2, 0, 0)]] + [(t, core) for t in [(3, 4, 0, 0), (4, 3, 0, 0), (4, 4, 0, 0)]]
+        k3 = [(t, full) for t in [(0, 0, 1, 1), (1, 2, 0, 0), (2, 1, 0, 0), (0, 1, 0, 0)]] + [(t, core) for t in [(0, 0, 0, 1), (1, 0, 0, 1), (2, 2, 0, 0), (3, 4, 0, 0), (4, 3, 0, 0), (4, 4, 0, 0)]]
     for t in k2:
         for h1 in range(n):
-            qs.append(_hq(t, lmax, 2, h1, full))
-    for (t, hset) in k3:
+            qs.append(_hq(t, lmax, 2, h1, -1, full))
+    for (t, hset) in k3:        # one query per (first, second) operation: larger chunks grow super-linearly (289 histories in one query: no verdict in 900 s / 4 GB)
         for h1 in range(n):
-            if (hset >> h1) & 1: qs.append(_hq(t, lmax, 3, h1, hset))
+            for h2 in range(n):
+                if (hset >> h1) & 1 and (hset >> h2) & 1: qs.append(_hq(t, lmax, 3, h1, h2, hset))
     return qs
 
-def _hq(t, lmax, k, h1, hset):
+def _hq(t, lmax, k, h1, h2, hset):
     ops = [o for i, o in enumerate(M_OPS) if (hset >> i) & 1]
-    nm = 'hist%d.%s.%s' % (k, _tname(t), M_OPS[h1])
-    nh = len(ops) ** (k - 1)
-    return Q(nm, 'c15', H, 'harness_hist', defs=_defs(t, lmax, K=k, H1=h1, H2=-1, H3=(-1 if k >= 3 else 0), HSET='0x%xu' % hset), unwind=8 * lmax + 10, inline_witness=True,
-             timeout=1200, mem_gb=4, extra=['--object-bits', '13'], group='hist%d.%s' % (k, _tname(t)),
-             bounds=_bounds(t, lmax, {'operations per history': k, 'histories in this query': nh, 'first operation': M_OPS[h1], 'later operations': 'every sequence over {%s}' % ', '.join(ops),
-                                      'appended characters': 'arbitrary, one per step'}),
+    nm = 'hist%d.%s.%s' % (k, _tname(t), M_OPS[h1]) + ('.%s' % M_OPS[h2] if h2 >= 0 else '')
+    return Q(nm, 'c15', H, 'harness_hist', defs=_defs(t, lmax, K=k, H1=h1, H2=h2, H3=(-1 if k >= 3 else 0), HSET='0x%xu' % hset), unwind=8 * lmax + 10, inline_witness=True,
+             timeout=900, mem_gb=4, extra=['--object-bits', '12'], group='hist%d.%s' % (k, _tname(t)),
+             bounds=_bounds(t, lmax, {'operations per history': k, 'histories in this query': len(ops), 'first operation': M_OPS[h1], 'second operation': M_OPS[h2] if h2 >= 0 else 'every one of the set',
+                                      'third operation': 'every one of the set' if k >= 3 else 'none', 'operation set': ', '.join(ops), 'appended characters': 'arbitrary, one per step'}),
              what='every history of %d mutating operations starting with %s on two owned strings (initial lengths %d and %d): after each step both strings equal the reference, are terminated, '
-                  'own exactly one block each; at the end all strings are destroyed and no block is outstanding' % (k, M_OPS[h1], t[0], t[1]))
+                  'own exactly one block each; at the end all strings are destroyed and no block is outstanding' % (k, M_OPS[h1] + (', ' + M_OPS[h2] if h2 >= 0 else ''), t[0], t[1]))
 
 def queries_c16(tier):
     """the queries that decide the block clauses of C16 for frg::basic_string (every block given back exactly once, nothing allocated after destruction):
     all histories, all constructors (incl. copy/move) and the C-string mutators; every one of them ends with destroying all strings and vp_end()"""
     def c16(q):
         p = q.name.split('.')
-        return p[0].startswith('hist') or (p[0] == 'str' and (p[1] in C16_S or p[1] == 'unary'))
+        return p[0].startswith('hist') or (p[0] == 'str' and (p[1] in C16_S or p[1] in ('unary', 'binary')))
     return [q for q in queries(tier) if c16(q)]
 
 def validation_queries(tier):
@@ -172,11 +172,18 @@ TECHNIQUE = ('CBMC bounded model checking of the clang-lowered real code: one qu
 FUNCTION_PATTERNS = [r'frg::', r'^[vs]_']
 ASSUMPTIONS = [
     'element order of compare() is the order of the library\'s Char type (plain char, signed on x86-64), lengths compared first: as implemented and anchored in the property',
-    'C-string arguments are NUL-terminated buffers of exactly strlen+1 bytes; (pointer,length) and view arguments are buffers of exactly length bytes',
-    'sub_string / operator[] preconditions: from + size <= size() (without wrap-around), index < size(); sub_string with arbitrary arguments is checked separately (stop or in-bounds result)',
-    'to_number: digit strings whose value fits the target type (overflow belongs to C20); the empty string is only checked for memory safety and engagement',
-    'the bytes of a tail grown by resize() are unspecified (the reference adopts them); a moved-from string may keep its value or become empty',
-    'clang-14 -O1 lowering is the semantics checked; the ir2c translation is validated differentially (generated C vs g++/ASan/UBSan build of the real headers) on every run',
+    'C-string arguments are buffers of exactly N+1 bytes (N arbitrary bytes + terminator; the string ends at the first 0); (pointer,length) and view arguments are buffers of exactly length bytes',
+    'sub_string / operator[] preconditions: from <= size() and size <= size() - from, index < size(); sub_string with ARBITRARY arguments is checked separately (stop through FRG_ASSERT or in-bounds result)',
+    'to_number: digit strings whose value fits the target type (overflow belongs to C20); for the empty string only engagement and memory safety are checked',
+    'the bytes of a tail grown by resize() are unspecified (the reference adopts them); a moved-from string may keep its value (frigg copies) or become empty',
+    'operations taking a C string run in single-path mode where released blocks and sources stay allocated (CBMC\'s free() model forks paths): use-after-free is not observable in those queries; '
+    'the same library code (memcpy from the argument, release of the old buffer) is checked with real free() by the view / (pointer,length) queries and the histories',
+    'quick tier: two-operand queries use the lengths {0, 1, 2, 4} (one-operand queries: every length 0..4); thorough: every pair of lengths 0..6',
+    'clang-14 -O1 lowering is the semantics checked; the ir2c translation is validated differentially (generated C vs g++/ASan/UBSan build of the real headers) on every run; in those random runs '
+    'buffers carry 8 defined slack bytes and blocks are not recycled, so that both builds behave alike; exact sizes and real free() are used under CBMC and in the native replay of counterexamples',
 ]
-OUTSIDE = ['strings longer than the stated source lengths / histories longer than 3 operations', 'character types other than char, allocators with state', 'detach() (hands the buffer to the caller by design)',
-           'to_allocated_string (C19/C20)', 'to_number on digit strings that do not fit the target type (C20)']
+OUTSIDE = ['strings longer than the stated source lengths (histories reach 8x the initial length by self-appends) / histories longer than 3 operations',
+           'quick tier: 3-step histories only over the 9 representative operations on one length tuple, 2-step histories over all 17 operations on 4 length tuples (thorough: see the manifest bounds)',
+           'C strings / C-string mutators inside histories (single operations from constructed strings only)', 'character types other than char, allocators with state',
+           'detach() (hands the buffer to the caller by design)', 'to_allocated_string (C19/C20)', 'to_number on digit strings that do not fit the target type (C20)',
+           'passing a null pointer with length 0 to memcpy is not visible to the solver queries (the IR-level memcpy of length 0 is a no-op); it is caught by UBSan in the native validation/replay builds']
